@@ -350,3 +350,23 @@ pub fn bufwriter_write_all_interrupted_flush() {
     assert!(w.len == 3, "BufWriter + write_all: payload lost or duplicated after an interrupted flush");
     let mut i = 0; while i < 3 { assert!(w.sink[i] == data[i]); i += 1; }
 }
+
+/// `&mut [u8]` as a vectored writer (the in-memory writer of the property): the count reported is exactly the number of
+/// bytes stored, also when the destination becomes full inside a member (seeded change C11-r6-3: the member that fills the
+/// slice is stored but not counted), and the bytes are the concatenation's prefix
+#[kani::proof]
+#[kani::unwind(8)]
+pub fn mut_slice_write_vectored_counts() {
+    let a: [u8; 2] = kani::any();
+    let b: [u8; 2] = kani::any();
+    let room = any_le(4);
+    let mut backing = [0u8; 4];
+    let mut dst: &mut [u8] = &mut backing[..room];
+    let BufResult(r, _) = run(dst.write_vectored([vec_cap(2, &a), vec_cap(2, &b)]));
+    let left = dst.len();
+    assert!(forget_err(r) == Some(room), "write_vectored into a slice must report exactly what it stored");
+    assert!(left == 0);
+    let src = [a[0], a[1], b[0], b[1]];
+    let mut i = 0;
+    while i < room { assert!(backing[i] == src[i]); i += 1; }
+}
